@@ -277,6 +277,15 @@ func C14(tier string) {
 			}
 		}
 	}
+	if only := os.Getenv("VERIF_C14_SHARE"); only != "" { // development aid
+		var sel []gen.RacyCase
+		for _, c := range all {
+			if gen.Shares[c.Share].Name == only {
+				sel = append(sel, c)
+			}
+		}
+		all = sel
+	}
 	per := 40
 	nProgs := (len(all) + per - 1) / per
 	if tier != "thorough" {
@@ -448,7 +457,7 @@ func C14(tier string) {
 	run.Assumptions = append(run.Assumptions, "a race-detector report is sound evidence that the instruction on that line accessed memory reachable from another goroutine",
 		"contexts are derived as the statement says (arbitrary context for main and go-callees, call-site contexts for their callees, merged per function); an instruction counts as local if its rationale is nil in the merged context",
 		"when a line holds several memory-accessing instructions only 'not all of them are local' is required")
-	run.Finish("exploration", "deliberately racy programs: an object is shared through each of 16 mechanisms and accessed from a goroutine and (after a sleep, without synchronisation) from its creator, one designated access per line; built with -race and run repeatedly; "+
+	run.Finish("exploration", "deliberately racy programs: an object is shared through each of 18 mechanisms and accessed from a goroutine and (after a sleep, without synchronisation) from its creator, one designated access per line; built with -race and run repeatedly; "+
 		"distinct non-trivial = (sharing mechanism, side, access kind) for which the race detector produced a report; oracle: a reported line must contain an instruction that the escape analysis classifies non-local")
 }
 
